@@ -678,8 +678,20 @@ def check_concat(fx, R):
                     dd[0][3][1:] == (d2,) and dd[0][4][1:] == (d2,),
                     'the diagnostics of report2 are inserted at the BEGINNING of report1: the aggregate no longer lists the diagnostics in the order the reports were added'),
                    (not dd, 'no statement adds the diagnostics of report2 to report1')])
-    R.form(len(ii) == 1 and ii[0] in want_i, 'T5', 'operator+=:info', 'info entries are combined by %s, expected insert(begin(report2.info), end(report2.info))' % (ii,),
-            'merge all info entries of report2', fx.rel(f['loc']), 'E-STATE')
+    # element-wise merge: a range-for over report2.info that inserts every entry is the range insert; an insert guarded by a condition on the entry filters the merge
+    loop_all, loop_filtered = False, None
+    for L_ in [x for x in walk(f['body']) if x.get('k') == 'RangeFor' and deep_unwrap(sx(x.get('range'))) == i2]:
+        var_ = (L_.get('var') or {}).get('name')
+        ins_ = [y for y in walk(L_['b']) if y.get('k') == 'MCall' and y.get('m') in ('insert', 'emplace') and deep_unwrap(sx(y['obj'])) == i1]
+        guards_ = [y for y in walk(L_['b']) if y.get('k') == 'If' and any(z is i_ for i_ in ins_ for z in walk(y.get('t')))]
+        if ins_ and not guards_:
+            loop_all = True
+        elif ins_ and guards_ and var_ and var_ in pp(guards_[0]['c']):
+            loop_filtered = pp(guards_[0]['c'])
+    R.form((len(ii) == 1 and ii[0] in want_i) or (loop_all and not loop_filtered), 'T5', 'operator+=:info', 'info entries are combined by %s, expected insert(begin(report2.info), end(report2.info))' % (ii,),
+            'merge all info entries of report2', fx.rel(f['loc']), 'E-STATE',
+            facts=[(loop_filtered is not None, 'the info entries of the right operand are inserted one by one and only when `%s`: entries for which that is false are dropped, so the merged info is not the union of the '
+                    'two reports (check-ups store an EMPTY value for a quantity that has not been measured yet or after a timeout - the key must still appear in the aggregate)' % loop_filtered)])
     # every path must do both; a shortcut path (e.g. `report1 = report2`) is only sound when report1 is known to hold nothing at all
     top = f['body']['s'] if f['body']['k'] == 'Compound' else [f['body']]
     uncond = [deep_unwrap(sx(x['e'])) for x in top if x['k'] == 'Expr']
